@@ -195,7 +195,7 @@ theorem MeansApply.closure {σ names bes cenv vs v τ} (hlen : names.length = vs
   have hok : arityOk names.length false vs.length = true := by simp [arityOk, hlen]
   simp only [procArity, Lambda.formals, Option.isSome_none, hok, Bool.not_true, Bool.false_eq_true, if_false]
   have hb := bindFixed_pushFrame σ.erase cenv names vs [] (by omega)
-  simp only [Store.newFrame_eq, Lambda.formals, Lambda.defs, Lambda.body]
+  simp only [Store.newFrame_eq, Lambda.defs, Lambda.body]
   rw [show σ.erase.frames.size = σ.frames.size from rfl] at *
   rw [hb]
   simp only [Ref.bindRest]
@@ -220,5 +220,348 @@ theorem Means.lambda_call {σ ρ names bes vals l l' vs σ₁ v τ} (hvals : Mea
       | nil => exact .nil
       | cons h ht => exact .cons (means_erase.mpr h) ht
     exact this hvals)
+
+theorem MeansSeq.of_erase {ρ σ es v τ} (h : MeansSeq ρ σ.erase es v τ) : MeansSeq ρ σ es v τ := by
+  cases h with
+  | one h => exact .one (means_erase.mp h)
+  | cons h ht => exact .cons (means_erase.mp h) ht
+
+theorem MeansSeq.to_erase {ρ σ es v τ} (h : MeansSeq ρ σ es v τ) : MeansSeq ρ σ.erase es v τ := by
+  cases h with
+  | one h => exact .one (means_erase.mpr h)
+  | cons h ht => exact .cons (means_erase.mpr h) ht
+
+/-- a native procedure other than `apply` -/
+theorem MeansApply.builtin {σ b args v σ'} (hb : b ≠ .apply) (ha : arityOk b.arity.1 b.arity.2 args.length = true)
+    (h : applyPure (enter σ) b args = (.ok v, σ')) : MeansApply σ (.builtin b) args v σ'.erase := by
+  have := AppliesProc.of_loop (env := 0) (Applies.builtin hb ha h (by simp))
+  obtain ⟨_, N, hN⟩ := this.out
+  exact ⟨N, leave σ', 0, hN N (Nat.le_refl _), rfl⟩
+
+/-- from a run of the trampoline -/
+theorem MeansApply.of_applies {σ p args env v σ'} (h : Applies (enter σ) p args env (.ok v) σ') :
+    MeansApply σ p args v σ'.erase := by
+  obtain ⟨_, N, hN⟩ := (AppliesProc.of_loop h).out
+  exact ⟨N, leave σ', env, hN N (Nat.le_refl _), rfl⟩
+
+end Ruschm.Meaning
+
+namespace Ruschm.Meaning
+open Ruschm Ruschm.Xform Ruschm.Xform.Keep Ruschm.Macro
+
+/-! ## what the transformer makes of a datum -/
+
+/-- the lists correspond element by element -/
+inductive All2 {α β} (R : α → β → Prop) : List α → List β → Prop
+  | nil : All2 R [] []
+  | cons {a b as bs} (h : R a b) (t : All2 R as bs) : All2 R (a :: as) (b :: bs)
+
+theorem All2.length {α β} {R : α → β → Prop} {as bs} (h : All2 R as bs) : as.length = bs.length := by
+  induction h with
+  | nil => rfl
+  | cons _ _ ih => simp [ih]
+
+/-- the transformer turns `d`, in the syntax environment `env` (which it leaves unchanged), into the
+expression `e` -/
+def XE (env : SynEnv) (d : Datum) (e : Expr) : Prop := ∃ n, toStatement n d env = (.ok (.expr e), env)
+
+theorem XE.of_run {n d env e env'} (h : toStatement n d env = (.ok (.expr e), env')) : XE env d e := by
+  have := ((keepAll n).stmt d).keep env _ env' h trivial
+  subst this; exact ⟨n, h⟩
+
+theorem XE.of_toExpr {n d env e env'} (h : toExpr n d env = (.ok e, env')) : XE env d e := by
+  obtain ⟨m, _, hm⟩ := toExpr_ok_inv h
+  exact .of_run hm
+
+theorem toExprs_inv : ∀ {ds : List Datum} {n env es env'}, toExprs n ds env = (.ok es, env') →
+    env' = env ∧ All2 (XE env) ds es
+  | [], n, env, es, env', h => by
+    cases n with
+    | zero => rw [toExprs] at h; cases h
+    | succ n => rw [toExprs] at h; cases h; exact ⟨rfl, .nil⟩
+  | d :: ds, n, env, es, env', h => by
+    cases n with
+    | zero => rw [toExprs] at h; cases h
+    | succ n =>
+      rw [toExprs] at h
+      obtain ⟨e, env₁, h₁, h₂⟩ := bind_ok h
+      have := ((keepAll n).expr d).keep env e env₁ h₁ trivial
+      subst this
+      obtain ⟨es', env₂, h₃, h₄⟩ := bind_ok h₂
+      cases h₄
+      obtain ⟨rfl, hf⟩ := toExprs_inv h₃
+      exact ⟨rfl, .cons (.of_toExpr h₁) hf⟩
+
+theorem toCall_inv {n f args loc env e env'} (h : toCall n f args loc env = (.ok e, env')) :
+    ∃ fe aes, XE env f fe ∧ All2 (XE env) args aes ∧ e = .call fe aes loc := by
+  cases n with
+  | zero => rw [toCall] at h; cases h
+  | succ m =>
+    rw [toCall] at h
+    obtain ⟨fe, env₁, h₁, h₂⟩ := bind_ok h
+    have := ((keepAll m).expr f).keep env fe env₁ h₁ trivial
+    subst this
+    obtain ⟨as, env₂, h₃, h₄⟩ := bind_ok h₂
+    cases h₄
+    exact ⟨fe, as, .of_toExpr h₁, (toExprs_inv h₃).2, rfl⟩
+
+/-- the eight keywords of the core forms -/
+def coreKeywords : List String := ["define", "define-library", "lambda", "if", "import", "quote", "set!", "define-syntax"]
+
+/-- `h` in operator position makes an ordinary procedure call: it is not the keyword of a core form
+nor, in `env`, of a macro -/
+def Ordinary (env : SynEnv) (h : Datum) : Prop :=
+  ∀ s l, h = .sym s l → s ∉ coreKeywords ∧ env.get? s = none
+
+theorem ordinary_of_list {env h x xs} (hl : IsList h (x :: xs)) : Ordinary env h := by
+  intro s l hs; subst hs; simp [IsList, Datum.spine] at hl
+
+/-- an ordinary call `(h arg…)` -/
+theorem XE.call_inv {env d h args e} (hx : XE env d e) (hd : IsList d (h :: args)) (ho : Ordinary env h) :
+    ∃ fe aes l, XE env h fe ∧ All2 (XE env) args aes ∧ e = .call fe aes l := by
+  obtain ⟨n, hx⟩ := hx
+  obtain ⟨dd, l, rfl, hdd⟩ := isList_cons_inv hd
+  cases n with
+  | zero => rw [toStatement] at hx; cases hx
+  | succ n =>
+    have hcall : toCall n h dd.elems l env = (.ok e, env) := by
+      rw [toStatement] at hx
+      have hpop : Macro.popProper (.pair h dd l) = .ok (some (h, dd)) := by
+        cases dd <;> first | rfl | (simp [IsList, Datum.spine] at hdd)
+      simp only [bind_run, lift, hpop, Datum.loc] at hx
+      cases h with
+      | sym s ls =>
+        obtain ⟨hk, hg⟩ := ho s ls rfl
+        simp only [coreKeywords, List.mem_cons, List.mem_nil_iff, or_false, not_or] at hk
+        obtain ⟨h1, h2, h3, h4, h5, h6, h7, h8⟩ := hk
+        simp only [h1, h2, h3, h4, h5, h6, h7, h8, if_false] at hx
+        obtain ⟨envv, e₁, hg', hx₁⟩ := bind_ok hx
+        cases hg'
+        simp only [hg] at hx₁
+        obtain ⟨c, env₁, hc, hp⟩ := bind_ok hx₁
+        cases hp
+        exact hc
+      | _ =>
+        simp only at hx
+        obtain ⟨c, env₁, hc, hp⟩ := bind_ok hx
+        cases hp
+        exact hc
+    rw [elems_of_isList hdd] at hcall
+    obtain ⟨fe, aes, h₁, h₂, rfl⟩ := toCall_inv hcall
+    exact ⟨fe, aes, l, h₁, h₂, rfl⟩
+
+
+/-- `(if t c)` and `(if t c a)` -/
+theorem XE.if_inv {env d i t c rest e} (hx : XE env d e) (hd : IsList d (i :: t :: c :: rest)) (hi : isSym "if" i = true) :
+    ∃ te ce l, XE env t te ∧ XE env c ce ∧
+      ((rest = [] ∧ e = .cond te ce none l) ∨ (∃ a rest' ae, rest = a :: rest' ∧ XE env a ae ∧ e = .cond te ce (some ae) l)) := by
+  obtain ⟨n, hx⟩ := hx
+  obtain ⟨m, te, ce, alt, l, rfl, ht, hc, rfl, ha⟩ := toStatement_if_inv hd hi hx
+  refine ⟨te, ce, l, .of_toExpr ht, .of_toExpr hc, ?_⟩
+  cases rest with
+  | nil =>
+    -- no alternative: the transformer produced `none`
+    left
+    refine ⟨rfl, ?_⟩
+    cases alt with
+    | none => rfl
+    | some ae =>
+      exfalso
+      obtain ⟨dd, l₀, rfl, hdd⟩ := isList_cons_inv hd
+      obtain ⟨dd', l', rfl, hdd'⟩ := isList_cons_inv hdd
+      obtain ⟨dd'', l'', rfl, hdd''⟩ := isList_cons_inv hdd'
+      obtain ⟨li, rfl⟩ := isSym_inv hi
+      rw [toStatement] at hx
+      simp (config := {decide := true}) only [bind_run, lift, Macro.popProper, if_true, if_false, Datum.loc,
+        elems_of_isList hdd, List.head?_cons, List.drop_succ_cons, List.drop_zero, need, XM.pure_run, ht, hc,
+        List.head?_nil] at hx
+      cases hx
+  | cons a rest' =>
+    right
+    obtain ⟨ae, rfl, ha'⟩ := ha a rest' rfl
+    exact ⟨a, rest', ae, rfl, .of_toExpr ha', rfl⟩
+
+theorem XE.sym_inv {env s l e} (hx : XE env (.sym s l) e) : e = .sym s l := by
+  obtain ⟨n, hx⟩ := hx
+  cases n with
+  | zero => rw [toStatement] at hx; cases hx
+  | succ n => rw [toStatement] at hx; cases hx; rfl
+
+theorem XE.sym (env : SynEnv) (s : String) (l : Loc) : XE env (.sym s l) (.sym s l) := ⟨1, by rw [toStatement]; rfl⟩
+
+theorem XE.prim_inv {env p l e} (hx : XE env (.prim p l) e) : e = .prim p l := by
+  obtain ⟨n, hx⟩ := hx
+  cases n with
+  | zero => rw [toStatement] at hx; cases hx
+  | succ n => rw [toStatement] at hx; cases hx; rfl
+
+/-- `(quote x)` -/
+theorem XE.quote_inv {env d q x e} (hx : XE env d e) (hd : IsList d [q, x]) (hq : isSym "quote" q = true) :
+    ∃ l, e = .quote x l := by
+  obtain ⟨n, hx⟩ := hx
+  obtain ⟨dd, l, rfl, hdd⟩ := isList_cons_inv hd
+  obtain ⟨dd', l', rfl, hdd'⟩ := isList_cons_inv hdd
+  obtain ⟨lq, rfl⟩ := isSym_inv hq
+  cases n with
+  | zero => rw [toStatement] at hx; cases hx
+  | succ n =>
+    rw [toStatement] at hx
+    simp (config := {decide := true}) only [bind_run, lift, Macro.popProper, if_true, if_false, Datum.loc,
+      elems_of_isList hdd, List.head?_cons, need, XM.pure_run] at hx
+    cases hx
+    exact ⟨l, rfl⟩
+
+/-- the name a formal parameter datum stands for -/
+def symName : Datum → String
+  | .sym s _ => s
+  | _ => ""
+
+theorem toFormals_list {d : Datum} {ds : List Datum} {env F env'} (h : toFormals d env = (.ok F, env'))
+    (hd : IsList d ds) : F = ⟨ds.map symName, none⟩ := by
+  have hsp : d.spine = (ds, none) := hd
+  unfold toFormals at h
+  cases d with
+  | pair a b l =>
+    simp only [hsp] at h
+    generalize List.find? _ _ = x at h
+    cases x with
+    | some b => cases h
+    | none =>
+      cases h
+      congr 1
+  | nil l =>
+    simp only [hsp] at h
+    generalize List.find? _ _ = x at h
+    cases x with
+    | some b => cases h
+    | none =>
+      cases h
+      congr 1
+  | _ => simp [IsList, Datum.spine] at hd
+
+/-- no form of `bs` is a definition (in `env`) -/
+def NoDefs (env : SynEnv) (bs : List Datum) : Prop :=
+  ∀ b ∈ bs, ∀ m df env', toStatement m b env ≠ (.ok (.definition df), env')
+
+/-- a body all of whose forms are expressions -/
+theorem toBody_nodefs {env : SynEnv} : ∀ (bs : List Datum) {m exprs0 D E env'},
+    toBody m bs [] exprs0 env = (.ok (D, E), env') → NoDefs env bs →
+    D = [] ∧ ∃ bes, E = exprs0.reverse ++ bes ∧ All2 (XE env) bs bes
+  | [], m, exprs0, D, E, env', h, _ => by
+    cases m with
+    | zero => rw [toBody] at h; cases h
+    | succ m =>
+      rw [toBody] at h
+      split at h
+      · cases h
+      · cases h; exact ⟨rfl, [], by simp, .nil⟩
+  | b :: bs, m, exprs0, D, E, env', h, hnd => by
+    cases m with
+    | zero => rw [toBody] at h; cases h
+    | succ m =>
+      rw [toBody] at h
+      obtain ⟨s, env₁, h₁, h₂⟩ := bind_ok h
+      cases s with
+      | expr e =>
+        have := ((keepAll m).stmt b).keep env _ env₁ h₁ trivial
+        subst this
+        simp only at h₂
+        obtain ⟨hD, bes, hE, hall⟩ := toBody_nodefs bs h₂ (fun b' hb' => hnd b' (List.mem_cons_of_mem _ hb'))
+        exact ⟨hD, e :: bes, by simp [hE], .cons ⟨m, h₁⟩ hall⟩
+      | definition df => exact absurd h₁ (hnd b (List.mem_cons_self ..) m df env₁)
+      | _ => cases h₂
+
+/-- `(lambda formals body…)` whose body forms are expressions -/
+theorem XE.lambda_inv {env lam k formals body e} (hx : XE env lam e) (hl : IsList lam (k :: formals :: body))
+    (hk : isSym "lambda" k = true) (hnd : NoDefs ([] :: env) body) :
+    ∃ F bes loc, toFormals formals env = (.ok F, env) ∧ All2 (XE ([] :: env)) body bes ∧
+      e = .lambda (.mk F [] bes) loc := by
+  obtain ⟨n, h⟩ := hx
+  obtain ⟨dd, l, rfl, hdd⟩ := isList_cons_inv hl
+  obtain ⟨dd', l', rfl, hdd'⟩ := isList_cons_inv hdd
+  obtain ⟨lk, rfl⟩ := isSym_inv hk
+  cases n with
+  | zero => rw [toStatement] at h; cases h
+  | succ m =>
+    rw [toStatement] at h
+    simp (config := {decide := true}) only [bind_run, lift, Macro.popProper, if_true, if_false, Datum.loc,
+      elems_of_isList hdd] at h
+    generalize hlam : toLambda m (formals :: body) env = x at h
+    obtain ⟨r, s₁⟩ := x
+    cases r with
+    | error er => cases h
+    | ok lamv =>
+      simp only [XM.pure_run, Prod.mk.injEq, Except.ok.injEq, Statement.expr.injEq] at h
+      cases m with
+      | zero => rw [toLambda] at hlam; cases hlam
+      | succ m' =>
+        rw [toLambda] at hlam
+        simp only [List.head?_cons, List.drop_succ_cons, List.drop_zero, need] at hlam
+        obtain ⟨_, e₀, h₀, hlam₁⟩ := bind_ok hlam
+        cases h₀
+        clear hlam
+        obtain ⟨F, env₁, hF, hlam₂⟩ := bind_ok hlam₁
+        clear hlam₁
+        have := (KeepIf.toFormals (Q' := Tt) formals).keep _ _ _ hF trivial
+        subst this
+        obtain ⟨bx, env₂, hb, hlam₃⟩ := bind_ok hlam₂
+        cases hlam₃
+        obtain ⟨defs, bodyE⟩ := bx
+        simp only [inChild] at hb
+        generalize hbody : toBody m' body [] [] ([] :: env₁) = y at hb
+        obtain ⟨rb, sb⟩ := y
+        have hrb : rb = .ok (defs, bodyE) := by
+          cases sb <;> simp only [Prod.mk.injEq] at hb <;> exact hb.1
+        subst hrb
+        obtain ⟨rfl, bes, hE, hall⟩ := toBody_nodefs body hbody hnd
+        simp only [List.reverse_nil, List.nil_append] at hE
+        exact ⟨F, bodyE, l, hF, hE ▸ hall, h.1.symm⟩
+
+/-- the application of a lambda expression `((lambda formals body…) arg…)` -/
+theorem XE.lambda_call_inv {env d lam args k formals body e} (hx : XE env d e) (hd : IsList d (lam :: args))
+    (hl : IsList lam (k :: formals :: body)) (hk : isSym "lambda" k = true) (hnd : NoDefs ([] :: env) body) :
+    ∃ F bes aes l₁ l₂, toFormals formals env = (.ok F, env) ∧ All2 (XE ([] :: env)) body bes ∧
+      All2 (XE env) args aes ∧ e = .call (.lambda (.mk F [] bes) l₁) aes l₂ := by
+  obtain ⟨fe, aes, l₂, hfe, haes, rfl⟩ := hx.call_inv hd (ordinary_of_list hl)
+  obtain ⟨F, bes, l₁, hF, hbes, rfl⟩ := hfe.lambda_inv hl hk hnd
+  exact ⟨F, bes, aes, l₁, l₂, hF, hbes, haes, rfl⟩
+
+/-- one expansion step of a bundled derived form -/
+theorem XE.expand_inv {env kw l₁ rest l d' e} (hx : XE env (.pair (.sym kw l₁) rest l) e) (hstd : StdEnv env)
+    (hkw : kw ∈ C05.keywords)
+    (hxp : ∀ fuel, matchFuel (rest.withLoc l) ≤ fuel → expand1 fuel kw (rest.withLoc l) = .ok d') : XE env d' e := by
+  obtain ⟨n, hx⟩ := hx
+  have hget := hstd kw hkw
+  cases hr : Macro.grammarRules kw with
+  | none =>
+    have := hxp (Macro.matchFuel (rest.withLoc l)) (Nat.le_refl _)
+    simp only [Macro.expand1, hr] at this
+    cases this
+  | some rules =>
+    rw [hr] at hget
+    obtain ⟨m, expanded, rfl, ht, hx'⟩ := toStatement_macro_inv hkw hget hx
+    have hfuel : Macro.matchFuel (rest.withLoc l) ≤ Macro.matchFuel (.pair (.sym kw l₁) rest l) + m := by
+      simp only [Macro.matchFuel, size_withLoc, Datum.size]; omega
+    have := hxp _ hfuel
+    simp only [Macro.expand1, hr] at this
+    rw [ht] at this
+    cases this
+    exact ⟨m, hx'⟩
+
+
+/-- the syntax environment has the bundled derived forms, and the names the templates use as
+procedures (`not`, `memv`, `null?`) are not keywords of macros -/
+structure StdSyn (env : SynEnv) : Prop where
+  std : StdEnv env
+  not_ : env.get? "not" = none
+  memv : env.get? "memv" = none
+  null : env.get? "null?" = none
+
+theorem StdSyn.child {env : SynEnv} (h : StdSyn env) : StdSyn ([] :: env) :=
+  ⟨h.std.child, h.not_, h.memv, h.null⟩
+
+set_option maxRecDepth 100000 in
+/-- the interpreter's own syntax environment -/
+theorem stdSyn_default : StdSyn [[], Interp.grammarScope] := ⟨stdEnv_default, by rfl, by rfl, by rfl⟩
 
 end Ruschm.Meaning
